@@ -81,9 +81,9 @@ def main():
     p = os.path.join(HERE, 'DESIGN.md')
     s = open(p).read()
     for name, text in tables.items():
-        pat = re.compile(r'(<!-- BEGIN:%s -->\n).*?(\n<!-- END:%s -->)' % (name, name), re.S)
+        pat = re.compile(r'(<!-- BEGIN:%s -->\n).*?(<!-- END:%s -->)' % (name, name), re.S)
         if pat.search(s):
-            s = pat.sub(lambda m: m.group(1) + text + m.group(2), s)
+            s = pat.sub(lambda m: m.group(1) + text + '\n' + m.group(2), s)
         else:
             print('marker %s not found in DESIGN.md' % name)
     open(p, 'w').write(s)
